@@ -160,7 +160,8 @@ def finish(c: Campaign, replay_writer=None) -> int:
             unknown.append((bucket, b))
 
     rc = 0
-    replay_dir = os.path.join(HOME, "replays")
+    out_home = os.path.join(HOME, "scratch") if os.environ.get("VERIF_NO_EVIDENCE") else HOME
+    replay_dir = os.path.join(out_home, "replays")
     os.makedirs(replay_dir, exist_ok=True)
     for bucket, b in unknown:
         name = f"{c.prop}-{chash(bucket)}.json"
@@ -200,8 +201,8 @@ def finish(c: Campaign, replay_writer=None) -> int:
         "wall_s": round(time.time() - c.t0, 2),
         "violations": len(unknown),
     }
-    os.makedirs(os.path.join(HOME, "evidence"), exist_ok=True)
-    with open(os.path.join(HOME, "evidence", f"{c.prop}.json"), "w") as f:
+    os.makedirs(os.path.join(out_home, "evidence"), exist_ok=True)
+    with open(os.path.join(out_home, "evidence", f"{c.prop}.json"), "w") as f:
         json.dump(ev, f, indent=1, sort_keys=True, default=str)
     print(f"{c.prop} tier={c.tier} seed={c.seed}: evaluations={c.evaluations} "
           f"distinct_nontrivial={len(c.nontrivial)} buckets={len(c.buckets)} "
